@@ -200,6 +200,9 @@ func runC15(c *Case, budget int, res *CaseResult) {
 			}, &st, Shard, NShards)
 		}()
 		res.Counts["rand-transitions"] += st.Transitions
+		if budget >= 2 && !aborted {
+			c.tableSweep(t, f, res)
+		}
 		if res.Sets == nil {
 			res.Sets = map[string][]string{}
 		}
@@ -369,4 +372,55 @@ func (c *Case) holdsNilUnion(v reflect.Value, depth int) bool {
 		}
 	}
 	return false
+}
+
+// tableSweep (scaffold program only): the budgeted exploration answers a draw on more than 8 values
+// from {0, n-1, n/3, n/2}; a draw on 9..64 values is usually an index into a small table (the letters
+// of randstring), every entry of which can be drawn. Each such draw of the default call is given, one
+// at a time, every value of its range; the returned value must be well formed and survive the round trip.
+func (c *Case) tableSweep(t reflect.Type, f func() any, res *CaseResult) {
+	call := func(sp *vrand.SweepSpec) (val any, perr any) {
+		vrand.Sweep, vrand.Calls = sp, 0
+		defer func() { vrand.Sweep = nil }()
+		defer func() { perr = recover() }()
+		return f(), nil
+	}
+	probe := &vrand.SweepSpec{Index: -1}
+	if _, perr := call(probe); perr != nil {
+		return
+	}
+	draws := probe.Seen()
+	if draws > 48 {
+		draws = 48
+	}
+	for i := 0; i < draws; i++ {
+		for v := 1; v < 64; v++ {
+			sp := &vrand.SweepSpec{Index: i, Value: v}
+			val, perr := call(sp)
+			if !sp.Hit {
+				break // the range of this draw holds fewer values
+			}
+			res.Counts["table-sweep-calls"]++
+			desc := fmt.Sprintf("table sweep: draw %d on a small range answers %d, every other draw 0", i, v)
+			if perr != nil {
+				res.fail("no-panic", "panics: "+trunc(fmt.Sprint(perr), 60), fmt.Sprintf("rand function of %s panics: %v [%s]", t, perr, desc), 1)
+				continue
+			}
+			rv := reflect.ValueOf(val)
+			if rv.Type() != t {
+				if !rv.Type().ConvertibleTo(t) {
+					continue
+				}
+				rv = rv.Convert(t)
+			}
+			var problems []string
+			c.wellFormed(rv, t.Name(), &problems)
+			if len(problems) > 0 {
+				res.fail("well-formed", trunc(problems[0], 70), fmt.Sprintf("value returned for %s: %s [%s]", t, strings.Join(problems, "; "), desc), 1)
+			}
+			if _, isUnion := c.Unions[t]; !isUnion && !(len(problems) == 0 && c.holdsNilUnion(rv, 0)) {
+				roundTrip(c, t, rv, 1, desc, res, "rand-")
+			}
+		}
+	}
 }
